@@ -37,7 +37,7 @@ def gen_case(rng: random.Random):
     bs = rng.choice([1, 1, 2, 2, 3, 3, 4, 5, 8])
     w = rng.choice([0, 0, 1, 2, 3, 5, 10])
     n = rng.choice([0, 1, 2, 3, 4, 5, 6, 8, 10, 14, 20])
-    style = rng.choice(['none', 'none', 'str', 'int', 'obj'])
+    style = rng.choice(['none', 'none', 'str', 'int', 'obj', 'tuple'])
     gaps = [0, 0, 0, 1, 1, 2, max(0, w - 1), w, w + 1, w + 2, 3 * w + 7]
     t = rng.choice([0, 0, 1, 5])
     arr = []
@@ -75,8 +75,14 @@ def run_impl_case(case):
 
     clock = {'now': 0}
     style = case['style']
-    end = {'none': None, 'str': 'END-MARK', 'int': -1, 'obj': _EqMarker()}[style]
-    msgs = [(t, end if m == 'END' else m) for t, m in case['arr']]
+    def mk():
+        # a fresh object per use: the marker coming out of a queue is in general equal to, but not
+        # identical with, the configured one (pickling round trip, producer-built values)
+        return {'none': lambda: None, 'str': lambda: ''.join(['END', '-MARK']),
+                'int': lambda: int('-100000000000000000001'), 'obj': _EqMarker,
+                'tuple': lambda: tuple(['END', 0])}[style]()
+    end = mk()
+    msgs = [(t, mk() if m == 'END' else m) for t, m in case['arr']]
 
     class VQueue:
         def __init__(self):
@@ -105,7 +111,7 @@ def run_impl_case(case):
                                     endmarker=end)
         try:
             for b in eb:
-                out.append([[NONE_ITEM if x is None else x for x in b], clock['now']])
+                out.append([[NONE_ITEM if x is None else (x if isinstance(x, int) and abs(x) < 10**6 else -888) for x in b], clock['now']])
             finished = True
         except _Blocked:
             finished = False
